@@ -4,6 +4,7 @@ import Holpy.C18.Gen
 import Holpy.C18.ProofsHyps
 import Holpy.C18.ProofsRes
 import Holpy.C18.ProofsProof
+import Holpy.C18.ProofsLA
 /-
 C18 — property theorems.  `Interp` is an arbitrary first-order interpretation (Sem.lean); a
 sequent holds when its hypotheses imply its proposition.  Everything is about the model of the
@@ -68,7 +69,7 @@ def classified : List (String × Bool) := [
   ("verit_ite_pos2", true),
   ("verit_ite_simplify", false),
   ("verit_la_disequality", true),
-  ("verit_la_generic", false),
+  ("verit_la_generic", true),
   ("verit_la_rw_eq", true),
   ("verit_let", false),
   ("verit_minus_simplify", false),
@@ -119,7 +120,8 @@ theorem registry_classified : classified.map (·.1) = Gen.namesSorted := by deci
 /-- tier 1 is exactly the set of rules the model implements -/
 theorem tier1_modelled : ∀ r ∈ Rule.all, (r.name, true) ∈ classified := by decide +kernel
 
-theorem tier1_count : tier1.length = Rule.all.length := by decide +kernel
+/-- … plus `verit_la_generic`, whose model (ModelLA.lean) works on parsed linear arithmetic -/
+theorem tier1_count : tier1.length = Rule.all.length + 1 ∧ ("verit_la_generic", true) ∈ classified := by decide +kernel
 
 example : ("verit_not_and", true) ∈ classified ∧ ("verit_onepoint", false) ∈ classified := by decide +kernel
 
@@ -172,6 +174,29 @@ example : evalRule .andNeg [mkAnd (.var 0) (.var 1), mkNot (.var 0), mkNot (.var
       .ok ⟨[], mkOr (mkAnd (.var 0) (.var 1)) (mkOr (mkNot (.var 0)) (mkNot (.var 1)))⟩
     ∧ evalRule .andNeg [mkAnd (.var 0) (mkAnd (.var 1) (.var 2)), mkNot (.var 0), mkNot (.var 1)] [] [] = .error .verit :=
   ⟨rfl, rfl⟩
+
+/-! ### la_generic / la_tautology -/
+
+/-- If `LAGenericMacro.eval` accepts a clause of (negated) `<`, `<=`, `=` literals with the given
+coefficients, the clause has a true literal under every valuation of its atoms — by rational
+numbers at sort real (the combination check), by integers at sort int (with the step
+`l > d ⟶ l >= d + 1` and the rounding of `k·(…) >= c` to the next multiple of the gcd `k`). -/
+theorem la_generic_sound :
+    (∀ (lits : List (LA.Lit ℚ)) (coeffs : List ℚ), LA.laGenericQ lits coeffs = true →
+      ∀ ρ : Nat → ℚ, ∃ l ∈ lits, LA.litTrue ρ l) ∧
+    (∀ (lits : List (LA.Lit ℤ)) (coeffs : List ℤ), LA.laGenericZ lits coeffs = true →
+      ∀ ρ : Nat → ℤ, ∃ l ∈ lits, LA.litTrue ρ l) :=
+  ⟨LA.laGenericQ_sound, LA.laGenericZ_sound⟩
+
+/-- non-vacuity: `~(-1 <= 2x) | ~(1 <= -2x)` is accepted over the integers (only by rounding: the real
+relaxation is satisfiable), `~(-3 <= 2x) | ~(1 <= -2x)` (false at x = -1) is rejected; over the
+reals `~(x <= 0) | ~(1 <= x)` is accepted with coefficients 1, 1 and rejected with 1, 0 -/
+example :
+    LA.laGenericZ [⟨true, .le, .num (-1), .mul 2 (.atom 0)⟩, ⟨true, .le, .num 1, .mul (-2) (.atom 0)⟩] [1, 1] = true
+    ∧ LA.laGenericZ [⟨true, .le, .num (-3), .mul 2 (.atom 0)⟩, ⟨true, .le, .num 1, .mul (-2) (.atom 0)⟩] [1, 1] = false
+    ∧ LA.laGenericQ [⟨true, .le, .atom 0, .num 0⟩, ⟨true, .le, .num 1, .atom 0⟩] [1, 1] = true
+    ∧ LA.laGenericQ [⟨true, .le, .atom 0, .num 0⟩, ⟨true, .le, .num 1, .atom 0⟩] [1, 0] = false := by
+  refine ⟨by decide, by decide, by decide +kernel, by decide +kernel⟩
 
 /-! ### resolution -/
 
